@@ -36,3 +36,31 @@ CHECKS["C17"] = dict(
          "value on every universe point and same hash and no map function; commuted operands => equal.",
     note="Trusted: real evaluation = Eval (C09); same callable object per abstract function id.",
     design_ref="DESIGN.md section 5, C17")
+
+_CORE_NOTE = ("Trusted: TLC; the plain theme (ranks -> real values) as an order-embedding, verified at start-up; the harness's independent CSV row decoder; "
+              "user callables from the theme's fixed table. Bounded: 6 point templates / ~75 queries / MaxLen 3-4 for the exhaustive design check; "
+              "random histories of 10-80 calls over 3 tag keys, 3 field keys, 8 instants, 4 measurements; TLC paths to depth 3-4 plus simulated behaviours.")
+_CORE_TECH = "TLA+ spec TinyFlux.tla/Index.tla model-checked by TLC; TLC-generated paths replayed into tinyflux; recorded executions judged by TLC (Trace_TinyFlux.tla)"
+
+
+def _core(pid, text, ref):
+    CHECKS[pid] = dict(level="model_checking", technique=_CORE_TECH, text=text, note=_CORE_NOTE, design_ref=ref)
+
+
+_core("C01", "TLC proves on the bounded design that the index path (Bisect on timestamps, inverted maps, set algebra for compounds) selects exactly Eval's points in every reachable "
+      "state; the binding runs histories (random, every TLC path of a focused alphabet, simulated behaviours) on the real package in all four configurations and TLC judges every "
+      "search/count/contains/get/select result (multiset, order, first match, select keys) against the definition on the logged contents.", "DESIGN.md section 5, C01")
+_core("C02", "RemoveExact is checked by TLC on every transition of the bounded design (three branches: nothing / everything / partial with index renumbering); "
+      "on the real package every remove/drop_measurement/remove_all is judged by TLC on return value, surviving contents and order, and every later call of the history is judged too.", "DESIGN.md section 5, C02")
+_core("C03", "ApplyUpdate (replace time/measurement, key-wise merge, unset last, static = callable) and UpdateExact are TLC-checked on the design; update-heavy random histories and all TLC "
+      "paths over the update alphabet are executed on the real package and judged by TLC on count-of-changed, contents and order.", "DESIGN.md section 5, C03")
+_core("C06", "IndexIsRebuild / IndexSearchExact / getters are TLC invariants over every reachable state of the design (incremental append and remove-with-renumbering vs rebuild); "
+      "on the real package, after EVERY call with a valid index, the live index's answers (query matches for a battery, keys, values, timestamps, length) are logged next to those of an "
+      "index rebuilt by the real code from the logged contents and TLC requires them equal, and the validity flag is judged against the envelope (in-order insert keeps valid, reads leave valid).",
+      "DESIGN.md section 5, C06")
+_core("C07", "Getter definitions (sorted keys, None-last tag values, insertion-order field values / timestamps, len, iter, all) are operators on the logged contents; TLC proves index getters = "
+      "definition on the design and judges every getter call of the real package, with and without a valid index, with present / absent / no measurement filter.", "DESIGN.md section 5, C07")
+_core("C10", "The specification gives handle operations the meaning of the database operation restricted to the handle's name; handle-heavy histories (90% of measurement-scoped calls "
+      "through db.measurement(name), names present and absent, handles re-obtained after drops) are judged by TLC clause by clause, so a handle that sees or touches another measurement fails result/store.", "DESIGN.md section 5, C10")
+_core("C11", "Failing operations (non-Point at each position of insert_multiple, update without arguments, update callable raising or returning an invalid value on the k-th selected point) are "
+      "actions of the specification with 'store unchanged' (insert_multiple: plus the stored prefix); TLC requires the raise, the unchanged projected contents, a consistent index, and judges all later calls.", "DESIGN.md section 5, C11")
